@@ -41,7 +41,7 @@ def child_main(cfg_json: str, backend: str, mw: str, storage_dir: str):
     U.WORLD.die = frozenset(spec.labels[i] for i in cfg.died)
     inner = lt_process.ForkRunnerBackend() if backend == 'fork' else lt_process.SpawnRunnerBackend()
     spy = SpyBackend(inner, horizon=100000)
-    req = [built.fresh(i) if fr else built.canon[i] for i, fr in cfg.requested]
+    req = [built.get(i, fr) for i, fr in cfg.requested]
     lab = labtech.Lab(storage=storage, runner_backend=spy, continue_on_failure=cfg.cof, notebook=False, context=ctx,
                       max_workers=(None if mw == 'None' else int(mw)))
     try:
